@@ -458,6 +458,10 @@ def check(ctx):
 
     # ---- R4: operator wiring ------------------------------------------------
     _wiring(ctx, rep, res, METHODS, PADS, ADJM, ADJP, nmax)
+    # ---- R6-R8: the operator classes evaluated on a model space ------------
+    from ..srcmodel import Model
+    from . import c13b
+    c13b.run(rep, Model(ctx))
     return rep
 
 
